@@ -1199,8 +1199,8 @@ static uint8_t decode_u_encoding_path(htp_cfg_t *cfg, htp_tx_t *tx, unsigned cha
         r = c2;
         tx->flags |= HTP_PATH_OVERLONG_U;
     } else {
-        // Check for fullwidth form evasion
-        if (c1 == 0xff) {
+        // Check for fullwidth form evasion (U+FF00 - U+FFEF)
+        if ((c1 == 0xff) && (c2 <= 0xef)) {
             tx->flags |= HTP_PATH_HALF_FULL_RANGE;
         }
 
